@@ -46,7 +46,7 @@ def check(rep, tier, rng):
     for res in t2.campaign_chunks(tier, rep.seed):
         ncamp += len(res["specs"])
         for k, s in enumerate(res["specs"]):
-            if s["status"] != "ok":
+            if s["status"] != "ok" and not s.get("oos"):
                 nviol += 1
                 if nviol <= 5:
                     rep.violation({"kind": "supported specification: generated module " + s["status"], "spec": s["text"], "rustc": s["compile_errors"]})
